@@ -161,7 +161,7 @@ def flips_winding(h):
     h.check("flip<=>det<0", h.all([h.implies(det < 0, flip), h.implies(det > 0, h.not_(flip))]))
 
 
-@contract("C04", TF + ".flips_winding", name="iff-det-negative[fixed-draw]", kind="bounded-shape", note="all real matrices M, one fixed draw of the nine random points (the every-draw version is in the thorough tier)")
+@contract("C04", TF + ".flips_winding", name="iff-det-negative[fixed-draw]", tier="thorough", kind="bounded-shape", note="all real matrices M, one fixed draw of the nine random points (the every-draw version is in the thorough tier)")
 def flips_winding_fixed(h):
     import numpy as _np
 
@@ -173,3 +173,146 @@ def flips_winding_fixed(h):
     h.assume(h.not_(det == 0))
     flip = h.fn(TF + ".flips_winding")(M)
     h.check("flip<=>det<0", h.all([h.implies(det < 0, flip), h.implies(det > 0, h.not_(flip))]))
+
+
+# ----------------------------------------------------------------------------- bounded: the real classes
+
+
+@bounded("C04", name="real-classes:apply_transform", note="fixed family of meshes/points/paths/scenes/voxels x matrices on the really imported classes")
+def classes_apply_transform(tier, seed):
+    import copy as _copy
+
+    import numpy as np
+    import trimesh
+    from trimesh import transformations as tf
+
+    from contracts import common as C
+
+    fails = []
+    cases = 0
+    mats = C.matrices(tier)
+
+    def bad(what, **kw):
+        if len(fails) < 5:
+            fails.append(dict(what=what, **{k: (v.tolist() if hasattr(v, "tolist") else v) for k, v in kw.items()}))
+
+    for (mname, mk), (xname, M) in itertools.product(C.meshes(tier), mats):
+        for preread in (False, True):
+            cases += 1
+            m = mk()
+            m.vertex_attributes["tag"] = np.arange(len(m.vertices))
+            m.face_attributes["ftag"] = np.arange(len(m.faces))
+            v0, f0 = m.vertices.copy(), m.faces.copy()
+            ref = trimesh.Trimesh(v0, f0, process=False)
+            vol0, com0, area0 = ref.volume, ref.center_mass.copy(), ref.area
+            solid = ref.is_watertight and ref.is_winding_consistent and vol0 > 1e-9
+            I0 = ref.moment_inertia.copy()
+            if preread:
+                _ = (m.face_normals, m.vertex_normals, m.edges_unique, m.face_adjacency, m.volume, m.bounds, m.area_faces)
+            ret = m.apply_transform(M)
+            L = M[:3, :3]
+            det = np.linalg.det(L)
+            want_v = v0 @ L.T + M[:3, 3]
+            key = dict(mesh=mname, matrix=xname, preread=preread)
+            if ret is not m:
+                bad("apply_transform does not return self", **key)
+            if not C.close(m.vertices, want_v):
+                bad("vertices != M.p", **key)
+            if len(m.faces) != len(f0) or len(m.vertices) != len(v0):
+                bad("counts changed", **key)
+            want_tris = want_v[f0][:, ::-1] if det < 0 else want_v[f0]
+            if C.tri_multiset(m.vertices[m.faces]) != C.tri_multiset(want_tris):
+                bad("triangles / winding: faces must be re-wound exactly when det < 0", **key)
+            if not (np.array_equal(m.vertex_attributes["tag"], np.arange(len(v0))) and np.array_equal(m.face_attributes["ftag"], np.arange(len(f0)))):
+                bad("attributes changed", **key)
+            fresh = trimesh.Trimesh(m.vertices.copy(), m.faces.copy(), process=False)
+            if solid:
+                if not C.close(fresh.volume, abs(det) * vol0, rtol=1e-7):
+                    bad("volume != |det| volume", got=fresh.volume, want=abs(det) * vol0, **key)
+                if not C.close(fresh.center_mass, L @ com0 + M[:3, 3], rtol=1e-7, atol=1e-8):
+                    bad("centre of mass does not map through M", **key)
+                s = abs(det) ** (1.0 / 3.0)
+                if C.close(L @ L.T, s * s * np.eye(3), rtol=1e-9):
+                    if not C.close(fresh.area, s * s * area0, rtol=1e-7):
+                        bad("area != s^2 area", **key)
+                    Rm = L / s
+                    if not C.close(fresh.moment_inertia, s**5 * (Rm @ I0 @ Rm.T), rtol=1e-6, atol=1e-8):
+                        bad("inertia != s^5 R I R^T", **key)
+            # inverse restores
+            m.apply_transform(np.linalg.inv(M))
+            if not C.close(m.vertices, v0, rtol=1e-7, atol=1e-7) or C.tri_multiset(m.vertices[m.faces], 5) != C.tri_multiset(v0[f0], 5):
+                bad("apply(M) then apply(M^-1) does not restore", **key)
+    # composition
+    for (mname, mk) in C.meshes(tier):
+        for (an, A), (bn, B) in itertools.product(mats[1:6], mats[3:8]):
+            cases += 1
+            a = mk().apply_transform(A).apply_transform(B)
+            b = mk().apply_transform(B @ A)
+            if not C.close(a.vertices, b.vertices, rtol=1e-7) or C.tri_multiset(a.triangles, 5) != C.tri_multiset(b.triangles, 5):
+                bad("apply(A);apply(B) != apply(B.A)", mesh=mname, A=an, B=bn)
+    # point clouds, paths, scenes, voxels, primitives
+    rs = np.random.RandomState(seed)
+    for xname, M in mats:
+        L, t = M[:3, :3], M[:3, 3]
+        cases += 1
+        pts = rs.rand(7, 3)
+        pc = trimesh.PointCloud(pts.copy(), colors=np.tile([10, 20, 30, 255], (7, 1)))
+        pc.apply_transform(M)
+        if not C.close(pc.vertices, pts @ L.T + t) or not np.array_equal(pc.colors, np.tile([10, 20, 30, 255], (7, 1))):
+            bad("PointCloud.apply_transform", matrix=xname)
+        cases += 1
+        p3 = trimesh.load_path(np.array([[0, 0, 0], [1, 0, 0], [1, 1, 0.5], [0, 0, 0]], dtype=float))
+        v0 = p3.vertices.copy()
+        ents = [e.points.copy() for e in p3.entities]
+        _ = p3.length
+        p3.apply_transform(M)
+        if not C.close(p3.vertices, v0 @ L.T + t) or any(not np.array_equal(e.points, q) for e, q in zip(p3.entities, ents)):
+            bad("Path3D.apply_transform", matrix=xname)
+        cases += 1
+        sc = trimesh.Scene()
+        sc.add_geometry(trimesh.creation.box(), node_name="a", transform=tf.translation_matrix([1, 2, 3]))
+        sc.add_geometry(trimesh.creation.icosphere(subdivisions=1), node_name="b", parent_node_name="a", transform=tf.rotation_matrix(0.5, [0, 1, 0]))
+        before = {n: sc.graph.get(n)[0].copy() for n in sc.graph.nodes_geometry}
+        sc.apply_transform(M)
+        for n, W in before.items():
+            if not C.close(sc.graph.get(n)[0], M @ W, rtol=1e-9):
+                bad("Scene.apply_transform: world transform of node != M.W", node=n, matrix=xname)
+        cases += 1
+        vg = trimesh.creation.box(extents=[1, 1, 2]).voxelized(0.5)
+        p0 = vg.points.copy()
+        dense0 = vg.matrix.copy()
+        vg.apply_transform(M)
+        if not C.close(vg.points, p0 @ L.T + t, rtol=1e-9) or not np.array_equal(vg.matrix, dense0):
+            bad("VoxelGrid.apply_transform", matrix=xname)
+    M2 = np.array([[0.0, -2, 7.0], [2.0, 0, -1.0], [0, 0, 1.0]])
+    cases += 1
+    p2 = trimesh.load_path(np.array([[0, 0], [2, 0], [2, 1], [0, 0]], dtype=float))
+    a0, v0 = p2.area, p2.vertices.copy()
+    p2.apply_transform(M2)
+    if not C.close(p2.vertices, v0 @ M2[:2, :2].T + M2[:2, 2]) or not C.close(p2.area, 4.0 * a0):
+        bad("Path2D.apply_transform (similarity s=2): vertices / area", area=p2.area, want=4.0 * a0)
+    # primitives: similarity re-parameterises, result mesh equals the transformed mesh
+    sim = tf.rotation_matrix(0.4, [1, 0, 1], [0.1, 0.2, 0.3]) @ tf.scale_matrix(1.7)
+    for pname, mkp in (
+        ("Box", lambda: trimesh.primitives.Box(extents=[1, 2, 3])),
+        ("Sphere", lambda: trimesh.primitives.Sphere(radius=1.2, subdivisions=1)),
+        ("Cylinder", lambda: trimesh.primitives.Cylinder(radius=0.5, height=2.0, sections=8)),
+        ("Capsule", lambda: trimesh.primitives.Capsule(radius=0.5, height=2.0, sections=8)),
+    ):
+        cases += 1
+        pr = mkp()
+        w = tf.transform_points(pr.vertices.copy(), sim)
+        vol = pr.volume
+        pr.apply_transform(sim)
+        got = np.asarray(pr.vertices)
+        if pname == "Sphere":
+            # a sphere keeps no orientation: its point SET is invariant under the rotation
+            # part, so compare centre and radius (not individual tessellation vertices)
+            c_want = tf.transform_points([[0.0, 0.0, 0.0]], sim)[0]
+            if not C.close(pr.primitive.center, c_want, rtol=1e-9) or not C.close(float(pr.primitive.radius), 1.2 * 1.7, rtol=1e-9) or not C.close(np.linalg.norm(got - c_want, axis=1), np.full(len(got), 1.2 * 1.7), rtol=1e-6):
+                bad("Sphere.apply_transform (similarity): centre / radius", primitive=pname)
+        elif len(got) != len(w) or not C.close(np.sort(np.round(got, 6), axis=0), np.sort(np.round(w, 6), axis=0), rtol=1e-5, atol=1e-5):
+            bad("primitive.apply_transform (similarity): mesh != transformed mesh", primitive=pname)
+        if not C.close(pr.volume, vol * 1.7**3, rtol=1e-6):
+            bad("primitive volume after similarity", primitive=pname)
+    return C.result(cases, cases, fails, "meshes %s x matrices %s x {cache cold, cache warm}; composition pairs; point cloud / path / scene / voxel / primitive instances" % ([n for n, _ in C.meshes(tier)], [n for n, _ in mats]), exhaustive=True, sample={"mesh": "box", "matrix": "mirror_x", "preread": True})
